@@ -4,6 +4,7 @@ sys.path.insert(0, os.path.dirname(os.path.abspath(__file__)))
 import vlib
 from concurrent.futures import ThreadPoolExecutor
 vlib.ensure_build("asan")
+vlib.ensure_build("tsan")
 jobs = []
 for src in sorted(glob.glob(os.path.join(vlib.VERIF, "harness", "C*.cpp"))):
     jobs.append((os.path.basename(src)[:-4], "rc"))
@@ -14,7 +15,7 @@ for src in sorted(glob.glob(os.path.join(vlib.VERIF, "harness", "w_*.cpp"))):
 def one(j):
     # a harness that does not build is not fatal for setup: its own check reports BUILD-ERROR when it is run
     try:
-        vlib.build_harness(j[0], j[1])
+        vlib.build_harness(j[0], j[1], "tsan" if j[0] == "C30" else "asan")
         return 1
     except BaseException as e:
         print("prebuild: %s not built (%s)" % (j[0], str(e)[:120]))
